@@ -436,6 +436,45 @@ namespace deeper { int vialeaf(const mid::deep::Leaf &l, const Base &b) { (void)
 }
 
 
+# a class method that takes a struct declared beside the class (docs/struct.rst): the class's C header must see the
+# C form of the struct
+CLSSTRUCT = {
+    "yaml": """
+library: sub
+cxx_header: sub.hpp
+options: {debug: true, wrap_python: false, wrap_lua: false}
+declarations:
+- decl: namespace ns1
+  declarations:
+  - decl: struct Pt { int x; double y; }
+  - decl: class Holder
+    declarations:
+    - decl: Holder()
+    - decl: ~Holder()
+    - decl: int take(const Pt & p)
+    - decl: void give(Pt * p +intent(out))
+  - decl: int free_take(Pt p)
+""",
+    "hpp": """
+#ifndef SUB_HPP
+#define SUB_HPP
+namespace ns1 {
+struct Pt { int x; double y; };
+class Holder { public: Holder(); ~Holder(); int take(const Pt &p); void give(Pt *p); };
+int free_take(Pt p);
+}
+#endif
+""",
+    "cpp": """
+#include "sub.hpp"
+namespace ns1 {
+Holder::Holder() {} Holder::~Holder() {} int Holder::take(const Pt &p) { return p.x; } void Holder::give(Pt *p) { p->x = 1; p->y = 2.0; }
+int free_take(Pt p) { return p.x; }
+}
+""",
+}
+
+
 # ---------------------------------------------------------------------------
 # part 3: descriptions from LibGen
 def classify(lib, stage, fn, txt):
@@ -520,6 +559,10 @@ def explore(c, tier):
     nl["funcs"] = []
     nl["custom"] = NEST
     uniq.append(nl)
+    cs_ = libgen.wide_library()
+    cs_["funcs"] = []
+    cs_["custom"] = CLSSTRUCT
+    uniq.append(cs_)
     # one library per row with nothing else in it (a forgotten helper / include request is not masked)
     uniq += libgen.solo_libraries()
     if tier == "thorough":
